@@ -270,9 +270,19 @@ def _parse_npath(npath: str) -> list[_NPathSegment]:
     return segments
 
 
+# Reserved words cannot be written as bare attribute names.
+_NIX_KEYWORDS = frozenset(
+    {"if", "then", "else", "assert", "with", "let", "in", "rec", "inherit"}
+)
+
+
 def _format_attr_name(segment: _NPathSegment) -> str:
     """Format a segment as a binding name, quoting when needed."""
-    if segment.quoted or not _NPATH_IDENTIFIER_RE.match(segment.name):
+    if (
+        segment.quoted
+        or not _NPATH_IDENTIFIER_RE.match(segment.name)
+        or segment.name in _NIX_KEYWORDS
+    ):
         escaped = _escape_nix_string(segment.name, escape_interpolation=True)
         return f'"{escaped}"'
     return segment.name
